@@ -32,6 +32,15 @@ type GCase struct {
 func drawG(t *rapid.T) GCase {
 	s := bz.Script{Level: rapid.SampledFrom([]int{-1, 0, 1, 6, 9}).Draw(t, "level"), WC: 1}
 	n := rapid.IntRange(2, 5).Draw(t, "members")
+	if rapid.IntRange(0, 4).Draw(t, "fullFirst") == 0 {
+		// a full block of zeros (a member of about a hundred bytes) followed by small
+		// members: a BSIZE that spans two of them makes one block of more than 65280 bytes
+		if s.Level == 0 {
+			s.Level = 6
+		}
+		s.Ops = append(s.Ops, bz.WOp{K: "write", P: bz.Pay{Kind: 4, Len: bz.BlockSize}}, bz.WOp{K: "flush"})
+		n = rapid.IntRange(1, 2).Draw(t, "after")
+	}
 	for i := 0; i < n; i++ {
 		l := rapid.IntRange(1, 800).Draw(t, "len")
 		if rapid.IntRange(0, 3).Draw(t, "tiny") == 0 {
@@ -217,6 +226,7 @@ func runG(c GCase, rec *h.Rec) {
 			}
 		}
 	}
+	rec.ClassIf(len(ms) > 0 && len(ms[0].Data) == bz.BlockSize, "first_member_is_a_full_block")
 	rec.NTIf(len(ms) >= 3)
 }
 
